@@ -37,11 +37,18 @@ use crate::lossless::relations::Relations;
 
 fn format_field(name: &str, value: &str) -> String {
     match name {
-        "Uploaders" => value
-            .split(',')
-            .map(|s| s.trim().to_string())
-            .collect::<Vec<_>>()
-            .join(",\n"),
+        "Uploaders" => {
+            let mut out = String::new();
+            for (i, piece) in value.split(',').map(|s| s.trim()).enumerate() {
+                if i > 0 {
+                    // An indented line that starts with '#' is a comment line: such a
+                    // piece stays on the line of the piece before it
+                    out.push_str(if piece.starts_with('#') { ", " } else { ",\n" });
+                }
+                out.push_str(piece);
+            }
+            out
+        }
         "Build-Depends"
         | "Build-Depends-Indep"
         | "Build-Depends-Arch"
